@@ -1230,7 +1230,7 @@ int SchedMain(const std::map<std::string, std::string> &a, const std::string &cm
              episode_wallclock = 0;
     std::map<std::string, uint64_t> yk, strat, sigcount;
     std::vector<uint64_t> trace_hashes;
-    bool canary_race_seen = false, canary_guard_clean = false;
+    bool canary_race_seen = false, canary_guard_clean = false, canary_disturbed = false;
     static uint64_t w_runs, w_tasks, w_ops, w_static, w_total, w_yields, w_switches, w_with;
     static uint64_t w_wallclock;
     static uint64_t w_yk[Y_NUM];
@@ -1271,13 +1271,28 @@ int SchedMain(const std::map<std::string, std::string> &a, const std::string &cm
         c["t"] = "canary";
         c["idx"] = static_cast<unsigned long long>(idx);
         bool race = false;
-        for (const SFinding &f : fs)
+        std::vector<SFinding> foreign;  // findings that are not about the canary
+        for (const SFinding &f : fs) {
+          if (f.sig.find("canary") == std::string::npos) foreign.push_back(f);
           if (f.cls == "data_race" && f.sig.find("canary") != std::string::npos) race = true;
+        }
         c["race"] = race;
-        c["findings"] = static_cast<unsigned long long>(fs.size());
+        c["findings"] = static_cast<unsigned long long>(fs.size() - foreign.size());
+        c["foreign"] = static_cast<unsigned long long>(foreign.size());
         c["static_accesses"] = static_cast<unsigned long long>(ep.static_accesses);
         *out += c.Dump();
         *out += '\n';
+        // A canary episode also runs real codec calls: what those expose is a
+        // finding about the library like any other (and may have ended the
+        // episode before the canary ran), never a fault of the machinery.
+        if (!foreign.empty()) {
+          Json arr = SFindingsToJson(foreign, eff, idx);
+          for (size_t i = 0; i < arr.size(); ++i) {
+            if (w_emitted[arr.at(i).get("sig").Str()]++ >= 3) continue;
+            *out += arr.at(i).Dump();
+            *out += '\n';
+          }
+        }
         return;
       }
       if (!fs.empty()) {
@@ -1348,8 +1363,12 @@ int SchedMain(const std::map<std::string, std::string> &a, const std::string &cm
         samples.push(j);
       } else if (t == "canary") {
         if (j.get("idx").U64() == 0) {
+          // Not seen AND nothing else found: the detector is blind. Not seen
+          // because a finding about the library ended the episode: reported
+          // as that finding.
           canary_race_seen = j.get("race").Bool();
-          if (!canary_race_seen) canary_failures.push(j);
+          canary_disturbed = !canary_race_seen && j.get("foreign").U64() > 0;
+          if (!canary_race_seen && !canary_disturbed) canary_failures.push(j);
         } else {
           canary_guard_clean = !j.get("race").Bool() && j.get("findings").U64() == 0;
           if (!canary_guard_clean) canary_failures.push(j);
@@ -1438,7 +1457,8 @@ int SchedMain(const std::map<std::string, std::string> &a, const std::string &cm
     can["racy_static_reported"] = canary_race_seen;
     can["guarded_initialiser_silent"] = canary_guard_clean;
     sum["canaries"] = can;
-    if (sample_mod <= 1 && (!canary_race_seen || !canary_guard_clean)) {
+    can["racy_static_episode_ended_by_library_finding"] = canary_disturbed;
+    if (sample_mod <= 1 && ((!canary_race_seen && !canary_disturbed) || !canary_guard_clean)) {
       if (canary_failures.size() == 0) canary_failures.push("canary run missing");
       sum["canary_failures"] = canary_failures;
     }
